@@ -92,7 +92,7 @@ func (c *conn) atPoint(point string, cl *mqtt.Client) {
 		delete(c.armed, point)
 	}
 	c.gmu.Unlock()
-	if point != "read.handled" && point != "write.afterClosedCheck" || armed {
+	if !writePathPoint[point] || armed {
 		c.h.gate(c.name + ":" + point)
 	}
 	if armed {
@@ -100,6 +100,11 @@ func (c *conn) atPoint(point string, cl *mqtt.Client) {
 		<-c.release
 	}
 }
+
+// schedule points of the read/write path: passed many times per operation, recorded only when a history arms them
+// (the write-path schedules of OutPath.tla have their own runner, outpath.go)
+var writePathPoint = map[string]bool{"read.handled": true, "write.afterClosedCheck": true, "loop.dequeued": true,
+	"write.encoded": true, "write.unlocked": true}
 
 // History is one execution of an op list on a fresh broker.
 type History struct {
